@@ -2,6 +2,7 @@ package main
 
 import (
 	"fmt"
+	"io/fs"
 	"os"
 	"strings"
 
@@ -20,7 +21,37 @@ type ent struct {
 	Name string `json:"name"`
 	Kind string `json:"kind"`
 	Kids []ent  `json:"kids,omitempty"`
-	Mode uint32 `json:"mode,omitempty"` // non-administrator scenarios only: chmod after creation (+0o10000 marks "set")
+	Mode uint32 `json:"mode,omitempty"` // chmod after creation: Unix bits 0o7777 (setuid 0o4000, setgid 0o2000, sticky 0o1000), +0o10000 marks "set"
+}
+
+// modeSet marks ent.Mode as given (mode 0000 is a mode too).
+const modeSet = 0o10000
+
+// unixMode converts Unix mode bits (0o7777) to the fs.FileMode that Chmod
+// takes: the special bits of fs.FileMode are not at their Unix positions.
+func unixMode(m uint32) fs.FileMode {
+	r := fs.FileMode(m & 0o777)
+
+	if m&0o4000 != 0 {
+		r |= fs.ModeSetuid
+	}
+
+	if m&0o2000 != 0 {
+		r |= fs.ModeSetgid
+	}
+
+	if m&0o1000 != 0 {
+		r |= fs.ModeSticky
+	}
+
+	return r
+}
+
+// modeVar is one element of the mode alphabet: special bits to set and,
+// optionally, permission bits replacing the ones the entry was created with.
+type modeVar struct {
+	Special uint32
+	Perm    int // -1: keep 0644 / 0755
 }
 
 // universe bounds the enumeration of one tier.
@@ -31,27 +62,46 @@ type universe struct {
 	TopKinds []string
 	KidKinds []string // "d" at this level is an empty directory (depth <= 2)
 	MaxSeg   int      // pattern length in segments
+
+	// The mode dimension. Lesson: code that derives the type of an entry from
+	// its mode (Type(), IsDir(), "is this a directory to descend into") masks
+	// bits, and a wrong mask is invisible as long as every mode is plain
+	// 0644/0755: entries must also carry the bits that are neither type nor
+	// permission (setuid, setgid, sticky - on files and on directories, seen
+	// through a second name and as the target of a link) and permission bits
+	// other than the ones they were created with.
+	Modes     []modeVar // every mode is given to every single entry of every mode shape
+	ModeCombo []modeVar // every assignment of {unchanged} + these to all entries of the full shape
 }
 
 func universeFor(tier string) universe {
 	if tier == "thorough" {
 		return universe{
-			Label:    "names {a,b,c} at top level, {a,b} below; top kinds {absent,file,dir,symlink>sibling,symlink>.,hardlink,empty file,abs symlink}; depth-2 kinds {absent,file,dir,symlink>sibling,symlink>.,hardlink}; patterns <= 3 segments",
+			Label: "names {a,b,c} at top level, {a,b} below; top kinds {absent,file,dir,symlink>sibling,symlink>.,hardlink,empty file,abs symlink}; depth-2 kinds {absent,file,dir,symlink>sibling,symlink>.,hardlink}; patterns <= 3 segments; " +
+				"mode trees (first in the order): 8 shapes (full two-level tree and its mirror, file with a hard link in both orders, directory / file behind a relative / absolute symbolic link, directory holding a link to '.') x every single file, directory or hard-link name chmod'ed to every non-empty subset of {setuid,setgid,sticky} with its creation permissions, to 0000, 0777 and 7000, plus every assignment of {unchanged,setuid,setgid,sticky,all three} to the four entries of the full shape",
 			TopNames: []string{"a", "b", "c"}, KidNames: []string{"a", "b"},
 			TopKinds: []string{"-", "f", "d", "s", ".", "h", "e", "S"},
 			KidKinds: []string{"-", "f", "d", "s", ".", "h"},
 			MaxSeg:   3,
+			Modes: []modeVar{
+				{0o4000, -1}, {0o2000, -1}, {0o1000, -1}, {0o7000, -1}, {0o6000, -1}, {0o5000, -1}, {0o3000, -1},
+				{0, 0o000}, {0, 0o777}, {0o7000, 0o000},
+			},
+			ModeCombo: []modeVar{{0o4000, -1}, {0o2000, -1}, {0o1000, -1}, {0o7000, -1}},
 		}
 	}
 
 	// quick: the complete two-name universe (the trees of the thorough tier in
 	// which c is absent), patterns of <= 2 segments
 	return universe{
-		Label:    "names {a,b}; top kinds {absent,file,dir,symlink>sibling,symlink>.,hardlink,empty file,abs symlink}; depth-2 kinds {absent,file,dir,symlink>sibling,symlink>.,hardlink}; patterns <= 2 segments",
+		Label: "names {a,b}; top kinds {absent,file,dir,symlink>sibling,symlink>.,hardlink,empty file,abs symlink}; depth-2 kinds {absent,file,dir,symlink>sibling,symlink>.,hardlink}; patterns <= 2 segments; " +
+			"mode trees (first in the order): 8 shapes (full two-level tree and its mirror, file with a hard link in both orders, directory / file behind a relative / absolute symbolic link, directory holding a link to '.') x every single file, directory or hard-link name chmod'ed to setuid, setgid, sticky or all three (creation permissions kept) and to permission bits 0700, plus every assignment of {unchanged, all three bits} to the four entries of the full shape",
 		TopNames: []string{"a", "b"}, KidNames: []string{"a", "b"},
-		TopKinds: []string{"-", "f", "d", "s", ".", "h", "e", "S"},
-		KidKinds: []string{"-", "f", "d", "s", ".", "h"},
-		MaxSeg:   2,
+		TopKinds:  []string{"-", "f", "d", "s", ".", "h", "e", "S"},
+		KidKinds:  []string{"-", "f", "d", "s", ".", "h"},
+		MaxSeg:    2,
+		Modes:     []modeVar{{0o4000, -1}, {0o2000, -1}, {0o1000, -1}, {0o7000, -1}, {0, 0o700}},
+		ModeCombo: []modeVar{{0o7000, -1}},
 	}
 }
 
@@ -104,8 +154,148 @@ func product(opts [][]ent) [][]ent {
 	return res
 }
 
-// trees enumerates every tree of the universe in canonical order.
+// modeShapes are the trees whose entries receive the modes of the alphabet.
+// Together they put a mode-carrying entry in every structural position the
+// enumeration functions treat differently: a directory with content (descended
+// into by WalkDir and by multi-segment patterns), an empty directory and a file
+// inside it, the first and the last name of a level, a file with two names, the
+// target of a relative and of an absolute symbolic link (the link itself must
+// keep its own type) and a directory that contains a link to itself. The first
+// shape is the full one (every name present at both levels).
+func (u universe) modeShapes() [][]ent {
+	a, b := u.TopNames[0], u.TopNames[1]
+	ka, kb := u.KidNames[0], u.KidNames[1]
+
+	k := func(n, kind string, kids ...ent) ent { return ent{Name: n, Kind: kind, Kids: kids} }
+
+	shapes := [][]ent{
+		{k(a, "d", k(ka, "f"), k(kb, "d")), k(b, "f")},
+		{k(a, "e"), k(b, "d", k(ka, "d"), k(kb, "f"))},
+		{k(a, "f"), k(b, "h")},
+		{k(a, "h"), k(b, "e")},
+		{k(a, "d", k(ka, "f"), k(kb, "-")), k(b, "s")},
+		{k(a, "S"), k(b, "d", k(ka, "-"), k(kb, "e"))},
+		{k(a, "f"), k(b, "S")},
+		{k(a, "d", k(ka, "."), k(kb, "f")), k(b, "-")},
+	}
+
+	for i := range shapes {
+		for _, n := range u.TopNames[2:] {
+			shapes[i] = append(shapes[i], k(n, "-"))
+		}
+	}
+
+	return shapes
+}
+
+// carriers lists the positions (index path) of the entries of a tree that can
+// be given a mode: files, directories and hard-link names. Chmod of a symbolic
+// link changes what it points to, which is one of those.
+func carriers(es []ent) [][]int {
+	var out [][]int
+
+	for i, e := range es {
+		switch e.Kind {
+		case "f", "e", "h":
+			out = append(out, []int{i})
+		case "d":
+			out = append(out, []int{i})
+
+			for _, c := range carriers(e.Kids) {
+				out = append(out, append([]int{i}, c...))
+			}
+		}
+	}
+
+	return out
+}
+
+// withMode returns a copy of the tree in which the entry at pos carries m.
+func withMode(es []ent, pos []int, m modeVar) []ent {
+	out := make([]ent, len(es))
+	copy(out, es)
+
+	e := &out[pos[0]]
+
+	if len(pos) > 1 {
+		e.Kids = withMode(e.Kids, pos[1:], m)
+
+		return out
+	}
+
+	perm := uint32(0o644)
+	if e.Kind == "d" {
+		perm = 0o755
+	}
+
+	if m.Perm >= 0 {
+		perm = uint32(m.Perm)
+	}
+
+	e.Mode = modeSet | m.Special | perm
+
+	return out
+}
+
+// modeTrees enumerates the mode dimension: every shape x every single carrier
+// x every mode of the alphabet, then every assignment of {unchanged} + ModeCombo
+// to all carriers of the full shape.
+func (u universe) modeTrees() [][]ent {
+	var out [][]ent
+
+	seen := map[string]bool{}
+
+	add := func(es []ent) {
+		if s := treeSpec(es); !seen[s] {
+			seen[s] = true
+			out = append(out, es)
+		}
+	}
+
+	shapes := u.modeShapes()
+
+	for _, sh := range shapes {
+		for _, pos := range carriers(sh) {
+			for _, m := range u.Modes {
+				add(withMode(sh, pos, m))
+			}
+		}
+	}
+
+	full := shapes[0]
+	cs := carriers(full)
+	n := len(u.ModeCombo) + 1
+	total := 1
+
+	for range cs {
+		total *= n
+	}
+
+	for x := 1; x < total; x++ {
+		es := full
+
+		for i, y := 0, x; i < len(cs); i, y = i+1, y/n {
+			if d := y % n; d > 0 {
+				es = withMode(es, cs[i], u.ModeCombo[d-1])
+			}
+		}
+
+		add(es)
+	}
+
+	return out
+}
+
+// trees enumerates every tree of the universe in canonical order: the mode
+// trees first (they are few and must not fall behind a deadline), then the
+// plain trees.
 func (u universe) trees() [][]ent {
+	return append(u.modeTrees(), u.plainTrees()...)
+}
+
+// plainTrees enumerates every tree over the kinds, all entries with the mode
+// they were created with.
+func (u universe) plainTrees() [][]ent {
 	var kidOpts [][]ent
 
 	for _, n := range u.KidNames {
@@ -287,7 +477,13 @@ func applyKernel(R string, ops []mop) error {
 		case "Link":
 			err = os.Link(R+"/"+o.B, p)
 		case "Chmod":
-			err = os.Chmod(p, os.FileMode(o.Perm))
+			err = os.Chmod(p, unixMode(o.Perm))
+
+			// the oracle must really hold the mode, otherwise the comparison
+			// proves nothing about it
+			if fi, e := os.Stat(p); err == nil && (e != nil || fi.Mode()&^fs.ModeType != unixMode(o.Perm)) {
+				err = fmt.Errorf("the scratch file system does not keep the mode (stat: %v %v)", fi.Mode(), e)
+			}
 		}
 
 		if err != nil {
@@ -315,7 +511,7 @@ func applyVFS(v avfs.VFS, R string, ops []mop) error {
 		case "Link":
 			err = v.Link(R+"/"+o.B, p)
 		case "Chmod":
-			err = v.Chmod(p, os.FileMode(o.Perm))
+			err = v.Chmod(p, unixMode(o.Perm))
 		}
 
 		if err != nil {
